@@ -39,7 +39,7 @@ CatOK(G, inp) ==
   G.kind # "enum" \/
   LET ls == DocLines(G.ver, Rng(G.cat.doc), G.cat.tv, G.cat.ord) IN
   /\ Len(ls) = Len(inp)
-  /\ G.cat.doc = Order(Rng(G.cat.doc), G.cat.ord)
+  /\ G.cat.doc = DocOrder(Rng(G.cat.doc), G.cat.ord)
   /\ \A j \in DOMAIN ls : Full(ls[j]) = Full(inp[j])
 
 -----------------------------------------------------------------------------
